@@ -170,8 +170,12 @@ def unit_norm_sites(fi, prog=None, _depth=1):
             continue
         # broadcast wrapper  p[:, None] / p[None, :] / p[:, np.newaxis]
         bel = index_elts(den_x)
-        if len(bel) == 2 and any(is_full_slice(x) for x in bel) and any((isinstance(x, ast.Constant) and x.value is None) or src(x).endswith("newaxis") for x in bel):
-            den_x = expand(fi, den_x.value)
+        wrapped = len(bel) == 2 and any(is_full_slice(x) for x in bel) and any((isinstance(x, ast.Constant) and x.value is None) or src(x).endswith("newaxis") for x in bel)
+        # a bare pivot vector X[argmax(abs(X), axis=0), arange(n)] broadcasts along the last axis: column j is divided by pivot j
+        bare = not wrapped and len(bel) == 2 and any(isinstance(expand(fi, x), ast.Call) and callee_name(prog, fi, expand(fi, x)) in ("numpy.arange", "range") for x in bel)
+        if wrapped or bare:
+            if wrapped:
+                den_x = expand(fi, den_x.value)
             if not isinstance(den_x, ast.Subscript):
                 continue
             vel = index_elts(den_x)
@@ -193,6 +197,8 @@ def unit_norm_sites(fi, prog=None, _depth=1):
                         out.append((n, False, f"pivot index is argmax of `{src(a_)}`, not of a magnitude (abs missing)"))
                     elif not (isinstance(ax, ast.Constant) and ax.value == pos_):
                         out.append((n, False if isinstance(ax, ast.Constant) else None, f"pivot searched along axis `{src(ax) if ax is not None else None}` but used as index {pos_}"))
+                    elif bare and pos_ != 0:
+                        out.append((n, False, f"the pivots of the rows (argmax along axis 1) are broadcast along the last axis: element (i, j) is divided by the pivot of row j, not of row i"))
                     elif dump(expand(fi, inner)) != dump(expand(fi, den_x.value)) or dump(expand(fi, base)) != dump(expand(fi, den_x.value)):
                         out.append((n, False, f"the largest-magnitude components are searched in `{src(inner)}` / taken from `{src(den_x.value)}` but `{src(base)}` is normalised"))
                     else:
@@ -477,7 +483,7 @@ def seq_env(stmts, upto=None, env=None, keep=()):
             continue
         if isinstance(s, ast.Assign) and len(s.targets) == 1 and isinstance(s.targets[0], ast.Name):
             if (isinstance(s.value, (ast.List, ast.Dict, ast.Set)) and not getattr(s.value, "elts", getattr(s.value, "keys", None))) or \
-                    (isinstance(s.value, ast.Call) and isinstance(s.value.func, ast.Name) and s.value.func.id in ("list", "dict", "set")):
+                    (isinstance(s.value, ast.Call) and isinstance(s.value.func, ast.Name) and s.value.func.id in ("list", "dict", "set") and not s.value.args and not s.value.keywords):
                 env.pop(s.targets[0].id, None)  # mutable accumulator: keep the name opaque
             else:
                 env[s.targets[0].id] = _SubstEnv(env).visit(copy.deepcopy(s.value))
@@ -497,10 +503,56 @@ def seq_env(stmts, upto=None, env=None, keep=()):
             env[s.target.id] = _SubstEnv(env).visit(copy.deepcopy(s.value))
         elif isinstance(s, ast.AugAssign) and isinstance(s.target, ast.Name) and s.target.id in env:
             env[s.target.id] = ast.BinOp(left=env[s.target.id], op=s.op, right=_SubstEnv(env).visit(copy.deepcopy(s.value)))
+        elif isinstance(s, ast.Assign) and len(s.targets) == 1 and isinstance(s.targets[0], ast.Subscript) and isinstance(s.targets[0].value, ast.Name) \
+                and s.targets[0].value.id in env and (is_full_slice(s.targets[0].slice) or (isinstance(s.targets[0].slice, ast.Constant) and s.targets[0].slice.value is Ellipsis)):
+            # X[:] = v / X[...] = v : every element replaced (v broadcast into the shape of X)
+            env[s.targets[0].value.id] = _SubstEnv(env).visit(copy.deepcopy(s.value))
+        elif isinstance(s, ast.Assign) and len(s.targets) == 1 and _masked_store(s.targets[0], env) is not None:
+            # X[mask] = v  /  X[:, mask] = v   ->   X = where(mask broadcast over the other axes, v, X)   (functional form of the update)
+            name, mask = _masked_store(s.targets[0], env)
+            env[name] = ast.Call(func=ast.Attribute(value=ast.Name(id="np", ctx=ast.Load()), attr="where", ctx=ast.Load()),
+                                 args=[mask, _SubstEnv(env).visit(copy.deepcopy(s.value)), env[name]], keywords=[])
         else:
             for n in stored_names(s):
                 env.pop(n, None)
     return env
+
+
+MASK_CALLS = {"isnan", "isinf", "isfinite", "isclose", "logical_and", "logical_or", "logical_not", "isin", "iscomplex", "isreal"}
+ROWMASK, COLMASK = "__rowmask__", "__colmask__"
+
+
+def is_mask_expr(e):
+    """a boolean array by construction: comparison, ~ / & / | of such, np.isnan-like call"""
+    if isinstance(e, ast.Compare):
+        return True
+    if isinstance(e, ast.UnaryOp) and isinstance(e.op, (ast.Invert, ast.Not)):
+        return is_mask_expr(e.operand)
+    if isinstance(e, ast.BinOp) and isinstance(e.op, (ast.BitAnd, ast.BitOr, ast.BitXor)):
+        return is_mask_expr(e.left) and is_mask_expr(e.right)
+    if isinstance(e, ast.Call) and isinstance(e.func, ast.Attribute) and e.func.attr in MASK_CALLS:
+        return True
+    return False
+
+
+def _masked_store(target, env):
+    """(array name, broadcast mask expression) for a store through a boolean mask into a name with a known value, else None.
+    `__rowmask__(m)` stands for m broadcast along axis 0 (m[:, None, ...]; plain m for a vector), `__colmask__(m)` for m[None, :]."""
+    if not (isinstance(target, ast.Subscript) and isinstance(target.value, ast.Name) and target.value.id in env):
+        return None
+    sl = target.slice
+    which = ROWMASK
+    if isinstance(sl, ast.Tuple):
+        if len(sl.elts) == 2 and is_full_slice(sl.elts[0]):
+            sl, which = sl.elts[1], COLMASK
+        elif len(sl.elts) == 2 and is_full_slice(sl.elts[1]):
+            sl = sl.elts[0]
+        else:
+            return None
+    m = _SubstEnv(env).visit(copy.deepcopy(sl))
+    if not is_mask_expr(m):
+        return None
+    return target.value.id, ast.Call(func=ast.Name(id=which, ctx=ast.Load()), args=[m], keywords=[])
 
 
 def at(stmts, stmt, expr, env0=None):
@@ -568,12 +620,20 @@ def _simple_body(fnode):
         body = body[1:]
     if not body or not isinstance(body[-1], ast.Return) or body[-1].value is None:
         return None
+    keep = []
     for s in body[:-1]:
+        # a guard that only raises, and log calls, do not contribute to the returned value
+        if isinstance(s, ast.If) and not s.orelse and all(isinstance(x, ast.Raise) for x in s.body):
+            continue
+        if isinstance(s, ast.Expr) and isinstance(s.value, ast.Call) and isinstance(s.value.func, ast.Attribute) and isinstance(s.value.func.value, ast.Name) \
+                and s.value.func.value.id in ("logger", "logging", "warnings"):
+            continue
         if not isinstance(s, (ast.Assign, ast.AnnAssign)):
             return None
+        keep.append(s)
     if fnode.args.vararg or fnode.args.kwarg:
         return None
-    return body
+    return keep + [body[-1]]
 
 
 class _Inline(ast.NodeTransformer):
@@ -593,10 +653,17 @@ class _Inline(ast.NodeTransformer):
         if r.node.decorator_list and not getattr(r, "is_static", False):
             return node
         bound = False
+        receiver = None
         if r.cls is not None and not getattr(r, "is_static", False):
-            # an instance method called on `self` from a method of the same object: `self` means the same thing in both bodies
-            if not (isinstance(node.func, ast.Attribute) and isinstance(node.func.value, ast.Name) and node.func.value.id == "self"
-                    and getattr(self.fi, "cls", None) is not None and not getattr(r, "is_classmethod", False) and not getattr(r, "is_property", False)):
+            # an instance method called on `self` from a method of the same object: `self` means the same thing in both bodies;
+            # called on a parameter annotated with the class (module-level helper taking the object): `self` becomes that parameter
+            if getattr(r, "is_classmethod", False) or getattr(r, "is_property", False) or not (isinstance(node.func, ast.Attribute) and isinstance(node.func.value, ast.Name)):
+                return node
+            if node.func.value.id == "self" and getattr(self.fi, "cls", None) is not None:
+                pass
+            elif self.prog.param_class(self.fi, node.func.value.id) is not None:
+                receiver = node.func.value.id
+            else:
                 return node
             bound = True
         body = _simple_body(r.node)
@@ -620,6 +687,8 @@ class _Inline(ast.NodeTransformer):
         env = seq_env(body[:-1], env=env)
         ret = _SubstEnv(env).visit(copy.deepcopy(body[-1].value))
         ret = _Inline(self.prog, r, self.depth - 1).visit(ret)
+        if receiver is not None:
+            ret = _SubstEnv({"self": ast.Name(id=receiver, ctx=ast.Load())}).visit(ret)
         return ast.copy_location(ret, node)
 
 
@@ -640,6 +709,18 @@ class _Fold(ast.NodeTransformer):
 
     def visit_Call(self, node):
         self.generic_visit(node)
+        f = node.func
+        # getattr(obj, "name") -> obj.name
+        if isinstance(f, ast.Name) and f.id == "getattr" and len(node.args) == 2 and not node.keywords and isinstance(node.args[1], ast.Constant) \
+                and isinstance(node.args[1].value, str) and node.args[1].value.isidentifier():
+            return ast.copy_location(ast.Attribute(value=node.args[0], attr=node.args[1].value, ctx=ast.Load()), node)
+        # (lambda a, b: body)(x, y) -> body with a := x, b := y   (positional, no defaults / stars)
+        if isinstance(f, ast.Lambda) and not node.keywords and not any(isinstance(a, ast.Starred) for a in node.args):
+            la = f.args
+            if not (la.vararg or la.kwarg or la.kwonlyargs or la.defaults or la.posonlyargs) and len(la.args) == len(node.args):
+                env = {a.arg: v for a, v in zip(la.args, node.args)}
+                body = copy.deepcopy(f.body)
+                return ast.copy_location(_Fold().visit(_SubstEnv(env).visit(body) if env else body), node)
         return node
 
     def visit_Subscript(self, node):
@@ -839,6 +920,89 @@ class PrunedFn:
         self.node = node
 
 
+def _self_chain(e):
+    while isinstance(e, ast.Attribute):
+        e = e.value
+    return isinstance(e, ast.Name) and e.id == "self"
+
+
+class SpecialisedFn:
+    """a method specialised to ONE call site `self.m(...)` inside another method of the same object (constant propagation over the
+    call edge): every parameter that the callee never re-binds and that receives, at this call, a constant, a `self.<attr>` chain, a
+    bound method of self or a lambda over such values is replaced by that argument in a copy of the body; `getattr(self, "x")` and
+    calls of the substituted lambdas are folded.  Usable where a FuncInfo is expected."""
+
+    def __init__(self, callee, caller, call, extra_consts=None):
+        self.fi = getattr(callee, "fi", callee)
+        self.mod, self.cls, self.qual = callee.mod, callee.cls, callee.qual
+        self.is_property = self.is_static = self.is_classmethod = False
+        self.caller, self.call = caller, call
+        m, errs = bind_args(callee.node, call, bound=True)
+        self.errors = errs
+        a = callee.node.args
+        pos, kwo, _, _ = params_of(callee.node)
+        defaults = dict(zip(pos[len(pos) - len(a.defaults):], a.defaults))
+        defaults.update({k.arg: d for k, d in zip(a.kwonlyargs, a.kw_defaults) if d is not None})
+        rebound = set()
+        for st in callee.node.body:
+            rebound |= stored_names(st)
+        cparams = set(params_of(caller.node)[0] + params_of(caller.node)[1]) - {"self"}
+        clocals = set()
+        for st in callee.node.body:
+            clocals |= {n.id for n in ast.walk(st) if isinstance(n, ast.Name)}
+        sub = {}
+        self.bound_params = {}
+        for prm in pos[1:] + kwo:
+            if prm in rebound:
+                continue
+            v = None
+            if prm in m and isinstance(m[prm], ast.AST):
+                v = expr_at(caller, call, m[prm])
+            elif prm not in m and prm in defaults and isinstance(defaults[prm], ast.Constant):
+                v = defaults[prm]
+            if v is None:
+                continue
+            free = {n.id for n in ast.walk(v) if isinstance(n, ast.Name)} - {"self", "np", "True", "False", "None"}
+            if isinstance(v, ast.Lambda):
+                free -= {x.arg for x in v.args.args}
+            # names of the caller's scope may travel only when they cannot be captured by a name of the callee
+            if free - cparams or (free & clocals):
+                continue
+            ok = isinstance(v, ast.Constant) or (isinstance(v, ast.Attribute) and _self_chain(v)) or isinstance(v, ast.Lambda) \
+                or (isinstance(v, ast.Name) and v.id in cparams)
+            if ok:
+                sub[prm] = v
+                self.bound_params[prm] = v
+        body = [fold(_SubstEnv(sub).visit(copy.deepcopy(st))) for st in callee.node.body]
+        node = ast.FunctionDef(name=callee.node.name, args=callee.node.args, body=body or [ast.Pass()], decorator_list=[], returns=None)
+        ast.copy_location(node, callee.node)
+        ast.fix_missing_locations(node)
+        self.node = node
+
+
+def reaching_values(fi, node, name):
+    """every value the local `name` may hold at `node`: the right-hand sides of all its plain assignments that precede `node` in the
+    function text, each expanded at its own program point; None when the name is also bound in another way (parameter, loop target,
+    augmented assignment, unpacking) - then the set of values is not known"""
+    order = [n for s_ in fi.node.body for n in ast.walk(s_)]
+    here = getattr(node, "lineno", None)
+    if here is None or not any(n is node for n in order):
+        return None
+    if name in params_of(fi.node)[0] + params_of(fi.node)[1]:
+        return None
+    owners = {id(a_.targets[0]): a_ for a_ in order if isinstance(a_, ast.Assign) and len(a_.targets) == 1 and isinstance(a_.targets[0], ast.Name)}
+    in_loop = any(isinstance(l_, (ast.For, ast.While)) and any(x is node for x in ast.walk(l_)) for l_ in order)
+    vals = []
+    for n in order:
+        if isinstance(n, ast.Name) and n.id == name and isinstance(n.ctx, (ast.Store, ast.Del)):
+            owner = owners.get(id(n))
+            if owner is None:
+                return None
+            if owner.lineno < here or in_loop:
+                vals.append(expr_at(fi, owner, owner.value))
+    return vals
+
+
 def parent_map(root):
     pm = {}
     for n in ast.walk(root):
@@ -1017,6 +1181,14 @@ class IndexedFn:
             rng = ast.Call(func=ast.Name(id="range", ctx=ast.Load()), args=[ast.Call(func=ast.Name(id="len", ctx=ast.Load()), args=[copy.deepcopy(it.args[0])], keywords=[])], keywords=[])
             return k, sub, rng, None
         start = kwarg(it, "start", 1)
+        # for i, (a, b) in enumerate(zip(A, B)): one index for both
+        if isinstance(target, ast.Tuple) and len(target.elts) == 2 and isinstance(target.elts[0], ast.Name) and isinstance(target.elts[1], ast.Tuple) and start is None \
+                and isinstance(it.args[0], ast.Call) and isinstance(it.args[0].func, ast.Name) and it.args[0].func.id == "zip" and len(it.args[0].args) == len(target.elts[1].elts) \
+                and all(isinstance(t, ast.Name) for t in target.elts[1].elts) and all(simple(a) for a in it.args[0].args):
+            i = target.elts[0].id
+            sub = {t.id: ast.Subscript(value=copy.deepcopy(a), slice=ast.Name(id=i, ctx=ast.Load()), ctx=ast.Load()) for t, a in zip(target.elts[1].elts, it.args[0].args)}
+            rng = ast.Call(func=ast.Name(id="range", ctx=ast.Load()), args=[ast.Call(func=ast.Name(id="len", ctx=ast.Load()), args=[copy.deepcopy(it.args[0].args[0])], keywords=[])], keywords=[])
+            return i, sub, rng, i
         if not (isinstance(target, ast.Tuple) and len(target.elts) == 2 and all(isinstance(t, ast.Name) for t in target.elts) and simple(it.args[0])):
             return None
         a = it.args[0]
@@ -1098,9 +1270,11 @@ def forwarded_args(prog, fi, target_qual, depth=2, _seen=()):
             out.append({"call": c, "holder": fi, "chain": [fi.node.name], "args": args, "missing": [p_ for p_ in pos + kwonly if p_ not in m],
                         "complete": complete, "errors": errs, "outer_call": c, "star": star if not complete else []})
             continue
-        same_obj = r.cls is not None and isinstance(c.func, ast.Attribute) and isinstance(c.func.value, ast.Name) and c.func.value.id == "self" \
-            and not getattr(r, "is_static", False) and not getattr(r, "is_classmethod", False)
-        if depth > 0 and r.qual not in _seen and r.node is not fi.node and ((r.cls is None and r.mod == fi.mod) or same_obj):
+        on_self = r.cls is not None and isinstance(c.func, ast.Attribute) and isinstance(c.func.value, ast.Name) and c.func.value.id == "self" \
+            and not getattr(r, "is_classmethod", False)
+        static = on_self and getattr(r, "is_static", False)      # self._helper(...) of a @staticmethod: no implicit first argument
+        same_obj = on_self and not static
+        if depth > 0 and r.qual not in _seen and r.node is not fi.node and ((r.cls is None and r.mod == fi.mod) or same_obj or static):
             inner = forwarded_args(prog, r, target_qual, depth - 1, _seen + (fi.qual,))
             if not inner:
                 continue
@@ -1123,11 +1297,28 @@ def forwarded_args(prog, fi, target_qual, depth=2, _seen=()):
                 # the helper forwards its own **kwargs: the extra keywords of THIS call travel through to the target
                 if hkwarg and hkwarg in rec.get("star", []):
                     extra = {k.arg: k.value for k in c.keywords if k.arg is not None and k.arg not in hp}
+                    unresolved = False
+                    for k in c.keywords:
+                        if k.arg is not None:
+                            continue
+                        # **d at this call: a dict literal / dict(...) with constant keys travels through entry by entry
+                        x = expr_at(fi, c, k.value)
+                        items = None
+                        if isinstance(x, ast.Dict) and all(isinstance(kk, ast.Constant) for kk in x.keys):
+                            items = [(kk.value, v) for kk, v in zip(x.keys, x.values)]
+                        elif isinstance(x, ast.Call) and isinstance(x.func, ast.Name) and x.func.id == "dict" and not x.args and all(kw.arg for kw in x.keywords):
+                            items = [(kw.arg, kw.value) for kw in x.keywords]
+                        if items is None:
+                            unresolved = True
+                            continue
+                        for name_, v_ in items:
+                            if name_ not in hp:
+                                extra.setdefault(name_, v_)
                     for k_, v_ in extra.items():
                         if k_ in missing:
-                            args[k_] = expr_at(fi, c, v_)
+                            args[k_] = v_ if not any(isinstance(n_, ast.Name) for n_ in ast.walk(v_)) else expr_at(fi, c, v_)
                             missing.remove(k_)
-                    comp = complete and not any(k.arg is None for k in c.keywords) and len(rec.get("star", [])) == 1
+                    comp = complete and not unresolved and len(rec.get("star", [])) == 1
                 out.append({"call": rec["call"], "holder": rec["holder"], "chain": [fi.node.name] + rec["chain"], "args": args, "missing": missing,
                             "complete": comp, "errors": rec["errors"] + errs, "outer_call": c, "star": []})
     return out
@@ -1147,6 +1338,23 @@ class _CanonElem(ast.NodeTransformer):
             return ast.Attribute(value=node.args[0], attr=nm.split(".")[-1], ctx=ast.Load())
         if nm in ("numpy.abs", "numpy.absolute") and len(node.args) == 1:
             return ast.Call(func=ast.Name(id="abs", ctx=ast.Load()), args=node.args, keywords=[])
+        return node
+
+    def visit_Attribute(self, node):
+        self.generic_visit(node)
+        if node.attr == "T":
+            v = node.value
+            # X.T.T -> X ; X.copy().T -> X.T ; where(c, a, b).T -> where(c.T, a.T, b.T) ; masks and scalars transposed in place
+            if isinstance(v, ast.Attribute) and v.attr == "T":
+                return v.value
+            if isinstance(v, ast.Call) and isinstance(v.func, ast.Attribute) and v.func.attr == "copy" and not v.args:
+                return self.visit(ast.Attribute(value=v.func.value, attr="T", ctx=ast.Load()))
+            if isinstance(v, ast.Call) and callee_name(self.prog, self.fi, v) == "numpy.where" and len(v.args) == 3:
+                return ast.Call(func=v.func, args=[self.visit(ast.Attribute(value=a, attr="T", ctx=ast.Load())) for a in v.args], keywords=[])
+            if isinstance(v, ast.Call) and isinstance(v.func, ast.Name) and v.func.id in (ROWMASK, COLMASK):
+                return ast.Call(func=ast.Name(id=COLMASK if v.func.id == ROWMASK else ROWMASK, ctx=ast.Load()), args=v.args, keywords=[])
+            if isinstance(v, ast.Constant) or (isinstance(v, ast.Attribute) and v.attr.lower() == "nan"):
+                return v
         return node
 
     def visit_Subscript(self, node):
